@@ -37,7 +37,7 @@ example : f_ortho.spec [0, 0] 0 = .lit (-1) 1 ∧ f_ortho.spec [0, 0] 2 = .lit (
 
 /-- non-vacuity -/
 example : (lookup "perspective" [0, 0]).nIn = 4 ∧ (lookup "perspective" [0, 0]).outs.length = 16 ∧
-    families.length = 30 ∧ f_ortho_cfg.keys.length = 4 := by decide +kernel
+    families.length = 32 ∧ f_ortho_cfg.keys.length = 4 := by decide +kernel
 
 /-- **`unProject(project(p)) = p`** for every projection matrix of the perspective shape (symbolic entries), identity
     model matrix and every viewport, under both depth conventions, in every field of characteristic zero — whenever the
